@@ -119,6 +119,25 @@ def handleAbs (st : AbsState) : List String → Option (AbsState × String)
       let S' := obsCrash sys S
       some (.c06 sys S', if S'.isEmpty then "REJECT" else "ok")
     | .none => some (st, "no-abstraction")
+  | ["abs.rest", a] => do
+    let act ← bool? a
+    match st with
+    | .lv sys S =>
+      let S' := obsRest sys S act
+      pure (.lv sys S', if S'.isEmpty then "REJECT" else "ok")
+    | .an sys S =>
+      let S' := obsRest sys S act
+      pure (.an sys S', if S'.isEmpty then "REJECT" else "ok")
+    | .ng sys S =>
+      let S' := obsRest sys S act
+      pure (.ng sys S', if S'.isEmpty then "REJECT" else "ok")
+    | .mk sys S =>
+      let S' := obsRest sys S act
+      pure (.mk sys S', if S'.isEmpty then "REJECT" else "ok")
+    | .c06 sys S =>
+      let S' := obsRest sys S act
+      pure (.c06 sys S', if S'.isEmpty then "REJECT" else "ok")
+    | .none => pure (st, "no-abstraction")
   | _ => Option.none
 
 end PsVerif.Driver
